@@ -162,6 +162,10 @@ class Run:
         spec = self.spec
         self.mod, self.source = render.load(spec, rec, source=step.get("source"))
         self.objs = render.provider_objects(spec, self.mod)
+        rec.write_values = {
+            st["id"]: (eval(st["value"]["expr"], self.mod.__dict__) if st.get("value") else st["id"])  # noqa: S307
+            for st in spec["states"]
+        }
         cls = getattr(self.mod, f"M_{spec['uid']}")
         listeners = [self.objs[p] for p in spec["providers"] if p not in ("sm", "model")]
         model = self.objs["model"]
